@@ -338,14 +338,16 @@ impl_wide_float!(
 impl Recip for f32x4 {
     #[inline]
     fn recip(self) -> Self {
-        f32x4::recip(self)
+        // `f32x4::recip` is only an estimate with about 12 correct bits.
+        f32x4::ONE / self
     }
 }
 
 impl Recip for f32x8 {
     #[inline]
     fn recip(self) -> Self {
-        f32x8::recip(self)
+        // `f32x8::recip` is only an estimate with about 12 correct bits.
+        f32x8::ONE / self
     }
 }
 
